@@ -479,3 +479,116 @@ func GenPlanned(r *simrt.RNG, cfg GenCfg) World {
 	w.Ops = []Op{{Kind: OpCall, Target: 0, Args: callArgs}}
 	return w
 }
+
+// GenExact builds an exact-match world (C03, C16): every target parameter has
+// a supplied value with exactly its key; then distractors are added.
+func GenExact(r *simrt.RNG, cfg GenCfg) World {
+	cfg.Ifaces = false
+	g := newGenState(r, cfg)
+	var w World
+	t := g.party(1+r.Intn(cfg.MaxParams), r.Intn(2), r.Bool())
+	for len(t.In) == 0 {
+		t = g.party(1+r.Intn(cfg.MaxParams), r.Intn(2), r.Bool())
+	}
+	w.Parties = append(w.Parties, t)
+	var callArgs []int
+	supply := func(l Label) {
+		a := ArgSpec{Label: l, Kind: ArgTyped}
+		if l.Name != "" {
+			a.Kind = ArgNamed
+			a.Spell = randomCase(r, l.Name)
+		}
+		w.Args = append(w.Args, a)
+		callArgs = append(callArgs, len(w.Args)-1)
+	}
+	for _, s := range t.In {
+		supply(s.Label)
+	}
+	exact := map[Label]bool{}
+	for _, s := range t.In {
+		exact[s.Label] = true
+	}
+	// a key is what the option maps are keyed by: (name, subtype) or (type, subtype)
+	keyOf := func(l Label) [3]string {
+		if l.Name != "" {
+			return [3]string{"n", l.Name, l.Sub}
+		}
+		return [3]string{"t", TypeName(l.Type), l.Sub}
+	}
+	keys := map[[3]string]bool{}
+	for l := range exact { // order-insensitive: builds a set
+		keys[keyOf(l)] = true
+	}
+	nd := r.Intn(9)
+	for i := 0; i < nd; i++ {
+		p := t.In[r.Intn(len(t.In))].Label
+		switch r.Intn(7) {
+		case 0, 1: // same-typed value under another name / subtype
+			l := Label{Type: p.Type, Name: g.name(), Sub: g.sub()}
+			if !cfg.Names {
+				l.Name = ""
+			}
+			if keys[keyOf(l)] {
+				continue
+			}
+			keys[keyOf(l)] = true
+			supply(l)
+		case 2: // converter producing the parameter from something supplied
+			src := t.In[r.Intn(len(t.In))].Label
+			c := Party{InForm: FormPositional, OutForm: FormPositional, In: []Slot{{Label: Label{Type: src.Type}}}, Out: []Slot{{Label: Label{Type: p.Type}}}, HasErr: r.Bool()}
+			if p.Name != "" && cfg.Structs && r.Bool() {
+				c.OutForm = FormStruct
+				c.Out[0].Label = p
+			}
+			w.Parties = append(w.Parties, c)
+			w.Args = append(w.Args, ArgSpec{Kind: ArgConv, Party: len(w.Parties) - 1})
+			callArgs = append(callArgs, len(w.Args)-1)
+		case 3: // provider of the parameter
+			c := Party{InForm: FormPositional, OutForm: FormStruct, Out: []Slot{{Label: p}}, HasErr: r.Bool(), Once: cfg.Once && r.Bool()}
+			if p.Name == "" && p.Sub == "" && r.Bool() {
+				c.OutForm = FormPositional
+			}
+			w.Parties = append(w.Parties, c)
+			w.Args = append(w.Args, ArgSpec{Kind: ArgConvFunc, Party: len(w.Parties) - 1})
+			callArgs = append(callArgs, len(w.Args)-1)
+		case 4: // name-using converter: takes a same-named value of another type
+			if p.Name == "" {
+				continue
+			}
+			ot := g.concrete()
+			c := Party{InForm: FormStruct, OutForm: FormStruct, In: []Slot{{Label: Label{Name: p.Name, Type: ot}}}, Out: []Slot{{Label: p}}, HasErr: r.Bool()}
+			w.Parties = append(w.Parties, c)
+			w.Args = append(w.Args, ArgSpec{Kind: ArgConvFunc, Party: len(w.Parties) - 1})
+			callArgs = append(callArgs, len(w.Args)-1)
+		case 5: // a random converter
+			c := g.party(1, 1, r.Bool())
+			if len(c.Out) == 0 {
+				continue
+			}
+			w.Parties = append(w.Parties, c)
+			a := ArgSpec{Kind: ArgConvFunc, Party: len(w.Parties) - 1}
+			if cfg.Gens && r.Bool() {
+				a = ArgSpec{Kind: ArgGen, Gen: &Gen{Trigger: p.Type, Party: len(w.Parties) - 1}}
+			}
+			w.Args = append(w.Args, a)
+			callArgs = append(callArgs, len(w.Args)-1)
+		case 6: // a 2-cycle through a parameter type
+			ot := g.concrete()
+			if ot == p.Type {
+				continue
+			}
+			for _, pr := range [][2]int{{p.Type, ot}, {ot, p.Type}} {
+				c := Party{InForm: FormPositional, OutForm: FormPositional, In: []Slot{{Label: Label{Type: pr[0]}}}, Out: []Slot{{Label: Label{Type: pr[1]}}}}
+				w.Parties = append(w.Parties, c)
+				w.Args = append(w.Args, ArgSpec{Kind: ArgConv, Party: len(w.Parties) - 1})
+				callArgs = append(callArgs, len(w.Args)-1)
+			}
+		}
+	}
+	for i := len(callArgs) - 1; i > 0; i-- {
+		j := r.Intn(i + 1)
+		callArgs[i], callArgs[j] = callArgs[j], callArgs[i]
+	}
+	w.Ops = []Op{{Kind: OpCall, Target: 0, Args: callArgs}}
+	return w
+}
